@@ -2,7 +2,7 @@
 
 use crate::api::{self, call_parse_tree};
 use crate::ctx::{Ctx, Tier};
-use crate::refmodel::{rpair, rscan, rtag};
+use crate::refmodel::{rscan, rtag};
 use crate::util::*;
 use serde_json::{json, Value};
 
@@ -17,12 +17,7 @@ fn reference(src: &str, ds: &str, de: &str) -> Option<(Vec<(usize, usize)>, Vec<
         if *tag {
             let body = &src[a + ds.len()..b - de.len()];
             match rtag(body) {
-                Some(t) => {
-                    if t.0.starts_with("//") {
-                        return None;
-                    }
-                    names.push(Some(t.0));
-                }
+                Some(t) => names.push(Some(t.0)),
                 None => {
                     // body starting with '=' or a quote is documented as a parse error => text
                     let tb = body.trim_start_matches(' ');
@@ -37,7 +32,7 @@ fn reference(src: &str, ds: &str, de: &str) -> Option<(Vec<(usize, usize)>, Vec<
             names.push(None);
         }
     }
-    let pairs = rpair(&names)
+    let pairs = crate::refmodel::rpair_checked(&names)?
         .into_iter()
         .map(|(o, c)| (spans[o].0, spans[c].0))
         .collect();
@@ -162,6 +157,11 @@ pub fn run(ctx: &mut Ctx) {
         let mut at = atoms(ds, de);
         at.push(format!("{ds}=a{de}"));
         at.push("\n".to_string());
+        at.push(format!("{ds}/A{de}"));
+        at.push(format!("{ds}/{de}"));
+        at.push(format!("{ds}//z{de}"));
+        at.push(format!("{ds}na{de}"));
+        at.push(format!("{ds}/na{de}"));
         let maxlen = if quick { 5 } else { 7 };
         for len in 0..=maxlen {
             let mut stop = false;
@@ -179,14 +179,16 @@ pub fn run(ctx: &mut Ctx) {
     }
     // random longer sequences
     let total: u64 = if quick { 2_000_000 } else { 40_000_000 };
-    let names = ["a", "b", "c", "/a", "/b", "/c", "/z"];
+    let names = ["a", "b", "c", "/a", "/b", "/c", "/z", "na", "/na", "list-a", "/list-a", "//z", "/A"];
     for i in (shard..total).step_by(n as usize) {
         if ctx.out_of_time() {
             break;
         }
         let mut r = Rng::for_case(seed, 31, i);
         let (ds, de) = *r.pick(&[("<", ">"), ("<!-- <", "> -->"), ("|", "|"), ("⟦🎈", "🎈⟧")]);
-        let len = 9 + r.below(32);
+        // mostly 9..40 tokens; every 50th sequence is long (200..500 tokens, many unclosed openers
+        // and stray closers in one scope)
+        let len = if i % 50 == 7 { 200 + r.below(300) } else { 9 + r.below(32) };
         let mut s = String::new();
         for _ in 0..len {
             match r.below(5) {
